@@ -1236,15 +1236,30 @@ outcome_t run_checker(const std::vector<int>& dims, const plan_t& plan, const in
     return {checker.borderline(), checker.worst_ratio(), checker.m_inferred, checker.m_gathered};
 }
 
+// C16_PROBE_TYPES (sensitivity experiments only): instantiate int32 / float / double only, which compiles in under a minute
+#ifdef C16_PROBE_TYPES
+inline bool type_served(const int type)
+{
+    return type == 2 || type == 4 || type == 5;
+}
+    #define C16_UNLESS_PROBE(call) break
+#else
+inline bool type_served(const int)
+{
+    return true;
+}
+    #define C16_UNLESS_PROBE(call) return call
+#endif
+
 template <size_t R>
 outcome_t run_rank(const std::vector<int>& dims, const plan_t& plan, const int type)
 {
     switch (type)
     {
-    case 0: return run_checker<int8_t, R>(dims, plan, type);
-    case 1: return run_checker<uint8_t, R>(dims, plan, type);
+    case 0: C16_UNLESS_PROBE((run_checker<int8_t, R>(dims, plan, type)));
+    case 1: C16_UNLESS_PROBE((run_checker<uint8_t, R>(dims, plan, type)));
     case 2: return run_checker<int32_t, R>(dims, plan, type);
-    case 3: return run_checker<uint64_t, R>(dims, plan, type);
+    case 3: C16_UNLESS_PROBE((run_checker<uint64_t, R>(dims, plan, type)));
     case 4: return run_checker<float, R>(dims, plan, type);
     case 5: return run_checker<double, R>(dims, plan, type);
     default: break;
@@ -1253,10 +1268,10 @@ outcome_t run_rank(const std::vector<int>& dims, const plan_t& plan, const int t
     {
         switch (type)
         {
-        case 6: return run_checker<int16_t, R>(dims, plan, type);
-        case 7: return run_checker<uint16_t, R>(dims, plan, type);
-        case 8: return run_checker<uint32_t, R>(dims, plan, type);
-        case 9: return run_checker<int64_t, R>(dims, plan, type);
+        case 6: C16_UNLESS_PROBE((run_checker<int16_t, R>(dims, plan, type)));
+        case 7: C16_UNLESS_PROBE((run_checker<uint16_t, R>(dims, plan, type)));
+        case 8: C16_UNLESS_PROBE((run_checker<uint32_t, R>(dims, plan, type)));
+        case 9: C16_UNLESS_PROBE((run_checker<int64_t, R>(dims, plan, type)));
         default: break;
         }
     }
@@ -1383,7 +1398,7 @@ std::vector<int> decode_shape(const int rank, int shape)
 verdict_t check_small(const small_t& c, ctx_t& ctx)
 {
     if (!rank_served(c.rank) || c.shape < 0 || c.shape >= shapes_of_rank(c.rank) || c.type < 0 ||
-        c.type >= types_for_rank(c.rank) || c.salt < 0)
+        c.type >= types_for_rank(c.rank) || c.salt < 0 || !type_served(c.type))
     {
         return verdict_t::discard("outside-the-space-served-by-this-executable");
     }
@@ -1432,7 +1447,7 @@ rc::Gen<small_t> gen_small()
                     small_t c;
                     c.rank   = rank;
                     c.shape  = std::get<0>(t);
-                    c.type   = std::get<1>(t);
+                    c.type   = type_served(std::get<1>(t)) ? std::get<1>(t) : 5;
                     c.salt   = std::get<2>(t);
                     c.reals  = std::get<3>(t);
                     c.gather = std::get<4>(t);
@@ -1454,6 +1469,10 @@ const std::vector<small_t>& all_combinations()
             {
                 for (int type = 0; type < types_for_rank(rank); ++type)
                 {
+                    if (!type_served(type))
+                    {
+                        continue;
+                    }
                     small_t c;
                     c.rank  = rank;
                     c.shape = shape;
@@ -1511,7 +1530,7 @@ constexpr long max_large_size = 100000;
 verdict_t check_large(const large_t& c, ctx_t& ctx)
 {
     const auto rank = static_cast<int>(c.dims.size());
-    if (!rank_served(rank) || c.type < 0 || c.type >= types_for_rank(rank) || c.salt < 0)
+    if (!rank_served(rank) || c.type < 0 || c.type >= types_for_rank(rank) || c.salt < 0 || !type_served(c.type))
     {
         return verdict_t::discard("outside-the-space-served-by-this-executable");
     }
@@ -1603,7 +1622,7 @@ rc::Gen<large_t> gen_large()
                     {
                         c.dims[static_cast<size_t>(special % rank)] = 0;
                     }
-                    c.type   = std::get<3>(t);
+                    c.type   = type_served(std::get<3>(t)) ? std::get<3>(t) : 5;
                     c.salt   = std::get<4>(t);
                     c.slices = std::get<5>(t);
                     if (c.slices.size() % 2 == 1)
